@@ -14,7 +14,9 @@ PROP = dict(
                     "(fresh and re-used parser context); 60k / 600k of the same cases through the C++ config_parser::set_format / "
                     "parser::read with one parser object used for several reads, and through mpt_parse_config with a handler that keeps "
                     "mpt::path copies (shared buffer) of 2/5 of the events and re-verifies all of them at every later event and after "
-                    "the parse.  Exploration, not proof."),
+                    "the parse, and through mpt::layout (open/load histories good - rejected - good on one layout, generated layout files of "
+                    "nine failure classes; a rejected text must leave items, graphs, alias and font as they were).  mpt_node_parse "
+                    "also with refused name-limits strings and without file on populated targets.  Exploration, not proof."),
         level_note=("trusts the stack model of open sections and the tree serialisers in harness/c08_parse.c / c08_cxx.cpp, gcc ASan/UBSan/LSan "
                     "(LSan scans conservatively; non-adjacent stray writes are not seen)"),
         legs=[dict(name="c08_fuzz", kind="fuzz", src=["c08_fuzz.c", "c08_gen.c", "c08_rec.c"], libs=["mptcore"], runs={"thorough": 150000}, max_len=1500,
@@ -31,7 +33,9 @@ PROP = dict(
                            "state:merged-into-existing": 30000, "state:flat-section-open-at-eof": 5000,
                            "format:length-0": 3000, "format:length-1": 3000, "format:length-2": 3000, "format:length-3": 3000, "format:length-4": 3000, "format:length-5": 3000, "format:length-6": 3000, "format:length-7": 3000, "format:length-8": 3000,
                            "format:length>8": 30000, "monitor:format-fields-checked": 200000, "monitor:format-lists-checked": 100000,
-                           "mpt_node_parse": 40000, "monitor:node_parse-snapshot-nonempty": 15000, "outcome:node_parse-accepted": 10000}),
+                           "mpt_node_parse": 40000, "monitor:node_parse-snapshot-nonempty": 15000, "outcome:node_parse-accepted": 10000,
+                           "fault:node_parse-bad-limits": 5000, "fault:node_parse-null-file": 5000,
+                           "monitor:node_parse-refused-argument-on-populated-target": 7000}),
               dict(name="c08_cxx", memcheck=500, src=["c08_cxx.cpp", "c08_gen.c", "c08_rec.c"], libs=["mpt++", "mptio", "mptplot", "mptcore"], batch=256, lsan=True,
                    floors={"parser::read": 60000, "config_parser::set_format": 60000, "set_format:refused": 200,
                            "outcome:accepted": 15000, "outcome:rejected": 25000,
@@ -40,7 +44,15 @@ PROP = dict(
                            "retained:section": 8000, "retained:sectend": 4000, "retained:option": 15000, "retained:data": 5000,
                            "state:parse-with-2+-retained-paths": 8000, "monitor:nesting-verdicts": 12000,
                            "format:length-0": 700, "format:length-1": 700, "format:length-2": 700, "format:length-3": 700, "format:length-4": 700, "format:length-5": 700, "format:length-6": 700, "format:length-7": 700, "format:length-8": 700,
-                           "monitor:format-fields-checked": 50000})],
+                           "monitor:format-fields-checked": 50000,
+                           "layout::load": 80000, "layout:rejected-text-on-populated-layout": 20000,
+                           "monitor:layout-unchanged-after-rejected-text": 30000, "monitor:layout-items-after-good-load": 40000,
+                           "layout:history-good-rejected-good": 6000,
+                           "layout-text:unclosed-section:rejected": 3000, "layout-text:stray-section-end:rejected": 3000,
+                           "layout-text:unterminated-option:rejected": 3000, "layout-text:digit-option-name:rejected": 3000,
+                           "layout-text:nameless-section:rejected": 3000, "layout-text:unterminated-quote:rejected": 3000,
+                           "layout-text:special-option-name:rejected": 3000, "layout-text:cut:rejected": 2500,
+                           "layout-text:generator-document:rejected": 2500})],
         rule=("case = (format string, section/option name flag sets, document bytes, getc error position or none, index of a refused "
               "save event or none, drivers run); non-trivial = mpt_parse_config delivered at least two events for the document, or "
               "rejected it after at least 8 getc calls (C++ leg: a read made at least 8 getc calls); distinct = 64-bit hash of "
@@ -57,6 +69,9 @@ PROP = dict(
             "none), [6..] up to 4 comment characters, blanks, up to 3 escape characters; parts the description is too short for keep "
             "MPT_PARSER_FORMAT_INIT; longer lists are not asserted",
             "a parser context / mpt::parser object may be used for a further parse after a failed one (mpt::layout does)",
+            "mpt::layout: whether the parser rejects a text is decided by an independent config_parser::read of the same text with "
+            "layout::file_format(); a generated good layout file (items '<type> <name> { .. }' of the seven item types, optional "
+            "'name = ..;') loads, and items() are then its top-level items in order, graphs() its graph items",
             "a path handler may keep a copy of the event path (mpt::path copy constructor, shares the character buffer); path bytes "
             "and the value bytes behind them must stay what the handler saw until the copy is released"],
     )
